@@ -1,11 +1,12 @@
 // Engine for C12 (concurrent daemon operations):
-//  (1) static: every lock path extracted from /repo (Gen/Locks.lean, served by the Lean driver) is judged
-//      with the decidable predicates of the theorem (Balanced, RankRespecting, ReleasesAll); a failing path is
-//      turned into a concrete deadlock schedule by exhaustive exploration of its interleavings with the other
-//      operations' paths (Lean model) where possible;
-//  (2) dynamic: the stress child harness/cmd/c12stress is built twice (plain and -race) against the same
-//      repository and run for several seeds / GOMAXPROCS; its oracle results and the race detector's stderr are
-//      collected. Data-race freedom is NOT covered by any theorem; the -race runs are the only support.
+//
+//	(1) static: every lock path extracted from /repo (Gen/Locks.lean, served by the Lean driver) is judged
+//	    with the decidable predicates of the theorem (Balanced, RankRespecting, ReleasesAll); a failing path is
+//	    turned into a concrete deadlock schedule by exhaustive exploration of its interleavings with the other
+//	    operations' paths (Lean model) where possible;
+//	(2) dynamic: the stress child harness/cmd/c12stress is built twice (plain and -race) against the same
+//	    repository and run for several seeds / GOMAXPROCS; its oracle results and the race detector's stderr are
+//	    collected. Data-race freedom is NOT covered by any theorem; the -race runs are the only support.
 package main
 
 import (
@@ -36,25 +37,25 @@ type genPath struct {
 }
 
 type replay struct {
-	Kind     string     `json:"kind"` // "path" | "schedule" | "stress"
-	Engine   string     `json:"engine"`
-	Op       string     `json:"op,omitempty"`
-	Index    int        `json:"index,omitempty"`
-	Group    string     `json:"group,omitempty"`
-	Path     string     `json:"path,omitempty"`
-	Verdict  string     `json:"verdict,omitempty"`
-	Threads  []string   `json:"threads,omitempty"`
-	Groups   []string   `json:"groups,omitempty"`
-	Schedule string     `json:"model_schedule,omitempty"`
-	Names    []string   `json:"thread_ops,omitempty"`
-	Seed     uint64     `json:"seed,omitempty"`
-	Procs    int        `json:"procs,omitempty"`
-	Race     bool       `json:"race,omitempty"`
-	Monitors bool       `json:"monitors,omitempty"`
-	Profile  string     `json:"profile,omitempty"`
-	Ops      [][]string `json:"schedule,omitempty"`
-	Detail   string     `json:"detail,omitempty"`
-	Resources string    `json:"resources,omitempty"`
+	Kind      string     `json:"kind"` // "path" | "schedule" | "stress"
+	Engine    string     `json:"engine"`
+	Op        string     `json:"op,omitempty"`
+	Index     int        `json:"index,omitempty"`
+	Group     string     `json:"group,omitempty"`
+	Path      string     `json:"path,omitempty"`
+	Verdict   string     `json:"verdict,omitempty"`
+	Threads   []string   `json:"threads,omitempty"`
+	Groups    []string   `json:"groups,omitempty"`
+	Schedule  string     `json:"model_schedule,omitempty"`
+	Names     []string   `json:"thread_ops,omitempty"`
+	Seed      uint64     `json:"seed,omitempty"`
+	Procs     int        `json:"procs,omitempty"`
+	Race      bool       `json:"race,omitempty"`
+	Monitors  bool       `json:"monitors,omitempty"`
+	Profile   string     `json:"profile,omitempty"`
+	Ops       [][]string `json:"schedule,omitempty"`
+	Detail    string     `json:"detail,omitempty"`
+	Resources string     `json:"resources,omitempty"`
 }
 
 const resourceLegend = "1 Store.wg, 2 DB.wg, 3 Store.mu, 4 DB.execSem, 5 Replica.wg, 6 Replica.syncSem, 7 DB.chkMu, 8 DB.mu, 9 DB.maxLTXFileInfos, 10 DB.pos, 11 DB.syncDiag, 12 Replica.mu, 13 Replica.muf, 14 DB.lastSuccessfulSyncMu, 15 HeartbeatClient.mu, 16 Server.wg; events a=Lock c=cancellable Acquire t=try ok f=try failed/cancelled r=release w=WaitGroup.Wait m=marker"
@@ -258,6 +259,7 @@ type episode struct {
 
 var lifecycleKnownKinds = map[string]bool{"final-sync-failed": true, "still-open": true, "restore-mismatch": true,
 	"read-lock-leaked": true, "fd-leak": true}
+
 // (snapshot-content-mismatch is handled next to them: it still occurs in the lifecycle profile after 94e7330)
 
 var raceRe = regexp.MustCompile(`(?s)WARNING: DATA RACE.*?==================`)
@@ -265,11 +267,13 @@ var raceRe = regexp.MustCompile(`(?s)WARNING: DATA RACE.*?==================`)
 // raceSignature names BOTH sides of a race report: the innermost litestream frame of each of the two access
 // stacks (function names, no line numbers) and, where the source line at the reported file:line shows it, the
 // struct field(s) being written / read there. The writing side comes first; two writes are sorted.
-//   C12/data-race/DB.Close[f]~DB.writeLTXFromDB[f]
+//
+//	C12/data-race/DB.Close[f]~DB.writeLTXFromDB[f]
 var (
-	raceBlockRe = regexp.MustCompile(`(?m)^(Write|Read|Previous write|Previous read|Atomic write|Previous atomic write|Atomic read|Previous atomic read) at [^\n]*\n((?:  [^\n]*\n)+)`)
-	raceFrameRe = regexp.MustCompile(`(?m)^  github\.com/benbjohnson/litestream((?:/[A-Za-z0-9_/-]+)?)\.([A-Za-z0-9_.()*\[\]]+)\(\)\n\s+(\S+):(\d+)`)
-	raceSelRe   = regexp.MustCompile(`(&?)\b([A-Za-z_][A-Za-z0-9_]*)((?:\.[A-Za-z_][A-Za-z0-9_]*)+)(\s*\()?`)
+	raceBlockRe   = regexp.MustCompile(`(?m)^(Write|Read|Previous write|Previous read|Atomic write|Previous atomic write|Atomic read|Previous atomic read) at [^\n]*\n((?:  [^\n]*\n)+)`)
+	raceFrameRe   = regexp.MustCompile(`(?m)^  github\.com/benbjohnson/litestream((?:/[A-Za-z0-9_/-]+)?)\.([A-Za-z0-9_.()*\[\]]+)\(\)\n\s+(\S+):(\d+)`)
+	raceHarnessRe = regexp.MustCompile(`(?m)^  main\.([A-Za-z0-9_.()*]+)\(\)\n`)
+	raceSelRe     = regexp.MustCompile(`(&?)\b([A-Za-z_][A-Za-z0-9_]*)((?:\.[A-Za-z_][A-Za-z0-9_]*)+)(\s*\()?`)
 )
 
 var racePkgNames = map[string]bool{"fmt": true, "os": true, "io": true, "context": true, "time": true, "ltx": true, "filepath": true,
@@ -343,7 +347,17 @@ func raceSignature(rep string) string {
 	for _, b := range raceBlockRe.FindAllStringSubmatch(rep, -1) {
 		m := raceFrameRe.FindStringSubmatch(b[2])
 		if m == nil {
-			sides = append(sides, side{"(outside litestream)", strings.Contains(strings.ToLower(b[1]), "write")})
+			// no litestream frame on this side: the access is made by the stress harness on memory handed out
+			// by the litestream API (e.g. an element of the slice returned by Store.DBs()); name the harness function
+			name := "(outside litestream)"
+			if hm := raceHarnessRe.FindStringSubmatch(b[2]); hm != nil {
+				n := strings.NewReplacer("(*", "", ")", "").Replace(hm[1])
+				if i := strings.Index(n, ".func"); i > 0 {
+					n = n[:i]
+				}
+				name = "stress." + n
+			}
+			sides = append(sides, side{name, strings.Contains(strings.ToLower(b[1]), "write")})
 			continue
 		}
 		n := strings.NewReplacer("(*", "", ")", "").Replace(m[2])
